@@ -24,6 +24,8 @@ func shapeKey(cs *Case) string {
 		return cs.Fam + "|" + string(cs.C.Kinds)
 	case "joinstr":
 		return cs.Fam
+	case "mem": // the dependency function of a re-entrant f is a run-time input
+		return fmt.Sprintf("mem|%d|%d|%d|%s", cs.C.P, cs.C.R, cs.C.Rot, cs.C.Kinds)
 	}
 	return cs.Fam + "|" + string(cs.CfgRaw)
 }
